@@ -135,7 +135,7 @@ for _p in ("C01", "C02", "C03", "C04", "C05", "C11", "C12"):
     PLANS[_p]["jobs"] = multi(PLANS[_p]["jobs"], pair_jobs)
 
 # C12: the twins must report equal counts after concurrent use (quiescent Size/Count exactness on the twin flavours)
-PLANS["C12"]["jobs"] = multi(PLANS["C12"]["jobs"], simple("sizeq", (120, 0), (6000, 0), stripes_q=4))
+PLANS["C12"]["jobs"] = multi(PLANS["C12"]["jobs"], simple("sizeq", (160, 0), (6000, 0), stripes_q=8))
 
 
 # same-key operation pairs, enumerated (oppair): first call parked at each of its steps, second call runs, porcupine on the tiny history
